@@ -277,7 +277,7 @@ func cmdVerify(args []string) int {
 	results := runObligations(sv, obls)
 	bad := 0
 	for _, r := range results {
-		ok := (r.V.Status == "unsat" && !r.O.WantSat) || (r.V.Status == "sat" && r.O.WantSat)
+		ok := oblOK(r)
 		if !ok {
 			bad++
 		}
@@ -367,7 +367,11 @@ func runObligations(sv *Solver, obls []*Obligation) []Result {
 				}
 				if pv.Status != "unsat" {
 					q := o.Gen.QueryPart(o, k, true)
-					pv = sv.Solve(q, "")
+					want := ""
+					if o.WantSat {
+						want = "cover"
+					}
+					pv = sv.Solve(q, want)
 				}
 				pv.Part = k
 				if k == 0 {
